@@ -627,6 +627,82 @@ def batched_oracle(run):
             run.oracle_ok("batched")
 
 
+def mutation_stream(run, drv, ask):
+    """item assignment / deletion / slicing on a TensorDictSequential (list- and ModuleDict-based): afterwards the advertised
+    in_keys / out_keys are those the model computes for the *current* list of modules, feeding exactly the advertised in_keys runs,
+    and the result is what the current modules compute one after another."""
+    rng = run.rng
+    n = 150 if run.tier == "quick" else 1500
+    cases, reqs = [], []
+    for ci in range(n):
+        prog = G.gen_prog(rng)
+        donor = G.gen_prog(rng)
+        # function ids of the donor must differ from the program's (values identify the dataflow)
+        donor = [dict(m, f=m["f"] + 1000) for m in donor]
+        container = "dict" if ci % 3 == 0 else "list"
+        cur = [(f"layer{i}", m) for i, m in enumerate(prog)]
+        ops = []
+        for _ in range(rng.randint(1, 3)):
+            if len(cur) > 1 and rng.random() < 0.45:
+                i = rng.randrange(len(cur))
+                ops.append(("del", i, cur[i][0]))
+                cur = cur[:i] + cur[i + 1:]
+            else:
+                i = rng.randrange(len(cur))
+                m = rng.choice(donor)
+                ops.append(("set", i, cur[i][0], m))
+                cur = cur[:i] + [(cur[i][0], m)] + cur[i + 1:]
+        lo = rng.randrange(0, len(cur))
+        hi = rng.randrange(lo + 1, len(cur) + 1)
+        cases.append((prog, container, ops, [m for _, m in cur], lo, hi))
+        csx = G.prog_sx([m for _, m in cur])
+        reqs += [f"(c14.keys {csx})", f"(c14.keys {G.prog_sx([m for _, m in cur][lo:hi])})"]
+    answers = ask(drv, reqs)
+    for ci, (prog, container, ops, cur, lo, hi) in enumerate(cases):
+        m_keys, m_slice = parse_sx(answers[2 * ci]), parse_sx(answers[2 * ci + 1])
+        psx, csx = G.prog_sx(prog), G.prog_sx(cur)
+        desc = [psx, container, [(o[0], o[1]) + ((G.prog_sx([o[3]]),) if o[0] == "set" else ()) for o in ops]]
+        run.case(("mutation", psx, container, str(desc[2])))
+        try:
+            with time_limit(90):
+                seq = G.build_seq(prog, container)
+                for o in ops:
+                    idx = o[2] if container == "dict" else o[1]
+                    if o[0] == "del":
+                        del seq[idx]
+                    else:
+                        seq[idx] = G.build_mods([o[3]])[0]
+                impl_keys = [canon_keys(seq.in_keys), canon_keys(seq.out_keys)]
+                sub = seq[lo:hi] if container == "list" else None
+        except TimeoutError:
+            raise
+        except Exception as e:  # noqa: BLE001
+            run.oracle_fail("sequence_mutation", desc, f"item assignment / deletion raised {type(e).__name__}: {str(e)[:100]}", f"mutation:raised:{type(e).__name__}")
+            continue
+        model_keys = [[G.parse_key(k) for k in m_keys[0]], [G.parse_key(k) for k in m_keys[1]]]
+        run.corr("keys_after_mutation", desc, impl_keys, model_keys)
+        if sub is not None:
+            run.corr("keys_of_slice", desc + [lo, hi], [canon_keys(sub.in_keys), canon_keys(sub.out_keys)],
+                     [[G.parse_key(k) for k in m_slice[0]], [G.parse_key(k) for k in m_slice[1]]])
+        if any(G.SINK in m["ins"] for m in cur):
+            continue
+        env = list(seq.in_keys)
+        ref = G.reference_run(cur, canon_keys(env))
+        try:
+            with time_limit(90):
+                out = seq(G.make_input(env))
+            impl = G.td_items(out)
+        except TimeoutError:
+            raise
+        except Exception as e:  # noqa: BLE001
+            impl = f"raised {type(e).__name__}"
+        if ref is None or impl != ref:
+            run.oracle_fail("sequence_mutation", desc, f"after the mutation, the sequence fed with its advertised in_keys {canon_keys(env)} gives {str(impl)[:160]}; "
+                            f"the current modules one after another give {str(ref)[:160]}", "mutation:" + ("insufficient-in-keys" if isinstance(impl, str) else "values"))
+        else:
+            run.oracle_ok("sequence_mutation")
+
+
 def run_more(run, drv, ask):
     selftest(run)
     batched_oracle(run)
@@ -636,5 +712,6 @@ def run_more(run, drv, ask):
     hook_stream(run, drv, ask)
     options_stream(run, drv, ask)
     nested_select_stream(run, drv, ask)
+    mutation_stream(run, drv, ask)
     import c14_prob
     c14_prob.run_prob(run, drv, ask)
